@@ -1,7 +1,7 @@
 #!/usr/bin/env python3
 """Parser of the harness event log (see harness/vh*.hpp for the grammar)."""
 
-OPS = ['CONSTRUCT', 'UPDATE', 'REACT', 'QUERY', 'IMMEDIATE', 'RESET', 'EXIT', 'ENTER', 'DESTROY', 'SAVE', 'LOAD', 'REPLAY', 'REPLAY_ENTER', 'PLANEDIT', 'EXTSTATUS', 'COPY', 'REACT2']
+OPS = ['CONSTRUCT', 'UPDATE', 'REACT', 'QUERY', 'IMMEDIATE', 'RESET', 'EXIT', 'ENTER', 'DESTROY', 'SAVE', 'LOAD', 'REPLAY', 'REPLAY_ENTER', 'PLANEDIT', 'EXTSTATUS', 'COPY', 'REACT2', 'OVERLONG']
 OP = {n: i for i, n in enumerate(OPS)}
 METH = {1: 'select', 2: 'rank', 3: 'utility', 4: 'entryGuard', 5: 'enter', 6: 'reenter', 7: 'preUpdate', 8: 'update', 9: 'postUpdate',
         10: 'preReact', 11: 'react', 12: 'query', 13: 'postReact', 14: 'exitGuard', 15: 'exit', 16: 'planSucceeded', 17: 'planFailed'}
